@@ -101,7 +101,9 @@ func (x *Exec) hkey(k any) (string, Sort) {
 		} else {
 			key = types.TypeString(v, func(p *types.Package) string { return p.Name() })
 		}
-		return "heap_" + mangleIdent(key), x.sortOf(v)
+		name := "heap_" + mangleIdent(key)
+		x.heapTypes[name] = v
+		return name, x.sortOf(v)
 	}
 	panic("hkey")
 }
